@@ -18,9 +18,11 @@ MANIFEST = {
     "level": "Bounded model checking by symbolic execution of the real mutators: (IND) one symbolic call of each of 10 "
              "mutator families from an arbitrary pool state satisfying the invariant - all list lengths, elements and "
              "argument aliasings are SMT variables - proves the invariant inductive, i.e. for histories of any length "
-             "within the pool bound; (BMC) every history of depth 2 (quick) / 3 (thorough) from the constructed pool. "
+             "within the pool bound; (BMC) every history of depth 2 (quick) / 3 (thorough) from the constructed pool, plus depth 2 over the link-side "
+             "mutators from pool edges built by the public constructor with symbolic ends. "
              "The invariant is asserted on returning and on raising paths.",
-    "note": "Bounds: 3 vertices, 2 pool links (+1 created), pre-state lists <= 2 (quick) / 3 (thorough). Trusted: pysym's "
+    "note": "Bounds: 3 vertices, 2 pool links (+1 created), pre-state lists <= 2 (quick; 3 for unlink / v1= / unlink_from, so that a "
+            "two-ended edge can name a third vertex) / 3 (thorough). Trusted: pysym's "
             "model of Python (validated on every explored path against CPython), z3. Counterexamples to induction are "
             "reported only if their pre-state is reached through the public API on the real code.",
     "design_ref": "DESIGN.md 5 (C01), 4.1",
